@@ -13,7 +13,7 @@ From Coq Require Import List ZArith Bool String Ascii Lia.
 From DD Require Import Model.Circuit Model.Query Model.Enumerate Model.StreamMsg
   Proofs.Semantics Proofs.CountsA Proofs.QueryDefs Proofs.C05Proof Proofs.StreamMsgDefs
   Proofs.StreamMsgParse Proofs.StreamMsgExec Proofs.StreamMsgOrder Proofs.StreamMsgRanges
-  Proofs.StreamMsgMain Proofs.C13F18.
+  Proofs.StreamMsgMain Proofs.C13F18 Proofs.StreamMsgCursor.
 Import ListNotations.
 Open Scope Z_scope.
 
@@ -29,12 +29,14 @@ Theorem C13_parse_no_panic : forall CC (X : extops CC) C n dbg (st : sstate CC) 
 Proof. exact @parse_no_panic. Qed.
 Print Assumptions C13_parse_no_panic.
 
-(* The whole handler.  The only partial operations the repair leaves are the two inside
-   Ddnnf::enumerate (`stop % rt`, `range.1 - range.0`); [enum_safe] is what makes them safe: the
-   cursor of the request's assumption set does not exceed the count under these assumptions (true
-   for a cursor left by enum requests on this model, C06) and the root's count is not hidden (the
-   root is not a true node).  For every line that is not an accepted `enum` request the statement
-   is unconditional; C13_enum_guard_needed shows the hypothesis cannot be dropped. *)
+(* The whole handler, ONE line in ANY state.  The only partial operations the repair F2 leaves are
+   the two inside Ddnnf::enumerate (`stop % rt`, `range.1 - range.0`); [enum_safe] is what makes
+   them safe: the cursor of the request's assumption set does not exceed the count under these
+   assumptions and the root's count is not hidden (the root is not a true node).  For every line
+   that is not an accepted `enum` request the statement is unconditional.  C13_enum_guard_needed
+   shows that in an ARBITRARY state the hypothesis cannot be dropped; since the repair F21 (finding
+   K2) the states a session can reach all satisfy it: C13_cursor_invariant_* and
+   C13_no_panic_session below. *)
 Theorem C13_no_panic : forall CC (X : extops CC) C n dbg (st : sstate CC) line chs,
   wf_sstate C n st -> ext_total X ->
   (forall rq, parse_request X V1 dbg st line = ROk rq -> r_cmd rq = "enum"%string ->
@@ -43,11 +45,90 @@ Theorem C13_no_panic : forall CC (X : extops CC) C n dbg (st : sstate CC) line c
 Proof. exact @handle_no_panic. Qed.
 Print Assumptions C13_no_panic.
 
+(* a state whose cursor (9) lies beyond the number of configurations (4): not reachable by a
+   session since F21, see C13_stale_cursor_unreachable *)
 Theorem C13_enum_guard_needed : exists (st : sstate unit) line,
   wf_sstate ex13 2 st /\ ext_total X13 /\
   ans V1 true st line = SPanic "enumerate_node: range.1 - range.0 underflows usize".
 Proof. exact enum_guard_needed. Qed.
 Print Assumptions C13_enum_guard_needed.
+
+(* ------------------------------------------------------------------ the cursor invariant (F21) *)
+(* [stream_inv st]: st is the state of a well-formed loaded model over at least one feature
+   (exists C n, wf_sstate C n st /\ 0 < n) whose cursor map satisfies [cursor_ok C n]: for every
+   assumption list A within 1..n with count(A) > 0, 0 <= cursor(enum_key A) < count(A), and the
+   position fits a usize.  The cursor is a field of the loaded model since F21 (before: one map
+   for the whole process, moved by every other model - finding K2), so the model's [cur] IS the
+   map the implementation consults, and Ddnnf::swap empties it when clause-update / undo-update
+   replace the nodes (exec: cur := []).
+   0 < n is what is left of the second half of enum_safe (the root is not a true node,
+   C06Page.root_not_true): a model without features - the lone true node - still divides by zero in
+   `stop % rt`; it is outside the input space of the properties.
+   [ext_wf X] (new): an ACCEPTED update / undo hands back a well-formed model over >= 1 feature
+   with a Clean scratch state - the contract of the recompilation (C12), like ext_total/ext_keeps. *)
+
+(* it holds for a freshly loaded model *)
+Theorem C13_cursor_invariant_init : forall CC C n (st : sstate CC),
+  wf_sstate C n st -> (0 < n)%nat -> cur st = [] -> stream_inv st.
+Proof. exact @stream_inv_init. Qed.
+Print Assumptions C13_cursor_invariant_init.
+
+(* EVERY line preserves it: rejected lines and non-mutating requests leave model and cursor alone,
+   `enum` writes stop mod count(A) < count(A), an accepted clause-update / undo-update replaces
+   the model and empties the cursor, a refused one changes nothing *)
+Theorem C13_cursor_invariant_step : forall CC (X : extops CC) dbg (st : sstate CC) line chs,
+  stream_inv st -> ext_total X -> (forall C, ext_keeps X C) -> ext_wf X ->
+  stream_inv (fst (handle_stream_msg X V1 dbg st line chs)).
+Proof. exact @stream_inv_step. Qed.
+Print Assumptions C13_cursor_invariant_step.
+
+(* and it implies the hypothesis of C13_no_panic, for whatever request the line parses to *)
+Theorem C13_cursor_invariant_enum_safe : forall CC (X : extops CC) dbg (st : sstate CC) line,
+  stream_inv st -> ext_total X ->
+  forall rq, parse_request X V1 dbg st line = ROk rq -> r_cmd rq = "enum"%string ->
+    enum_safe (dd st) (cur st) (sc st) (p_params (r_args rq)).
+Proof. exact @stream_inv_enum_safe. Qed.
+Print Assumptions C13_cursor_invariant_enum_safe.
+
+(* one line in a state satisfying the invariant: no panic, `enum` lines included *)
+Theorem C13_no_panic_inv : forall CC (X : extops CC) dbg (st : sstate CC) line chs,
+  stream_inv st -> ext_total X ->
+  forall site, snd (handle_stream_msg X V1 dbg st line chs) <> SPanic site.
+Proof. exact @handle_no_panic_inv. Qed.
+Print Assumptions C13_no_panic_inv.
+
+(* UNCONDITIONAL for sessions: whatever lines one instance is fed one after another, starting
+   from a state with the invariant (e.g. freshly loaded), none of them is answered by a panic *)
+Theorem C13_no_panic_session : forall CC (X : extops CC) dbg (ls : list (string * list choice)) (st : sstate CC),
+  stream_inv st -> ext_total X -> (forall C, ext_keeps X C) -> ext_wf X ->
+  forall o, In o (session X dbg st ls) -> forall site, o <> SPanic site.
+Proof. exact @session_no_panic. Qed.
+Print Assumptions C13_no_panic_session.
+
+(* The state the code BEFORE F21 reached by `enum l 3` on four configurations followed by a
+   clause-update to one configuration (new model, old cursor 3): wf_sstate holds, `enum` panics,
+   and the state violates the invariant - with F21 no session reaches it. *)
+Theorem C13_stale_cursor_unreachable :
+  wf_sstate ex13s 2 st13_stale /\ cur st13_stale = [([], 3)] /\
+  snd (handle_stream_msg X13u V1 true st13_stale "enum" []) =
+    SPanic "enumerate_node: range.1 - range.0 underflows usize" /\
+  ~ stream_inv st13_stale.
+Proof. exact stale_cursor_panics. Qed.
+Print Assumptions C13_stale_cursor_unreachable.
+
+(* non-vacuity: an instance of the plugged operations that ACCEPTS updates satisfies the three
+   hypotheses, its start state has the invariant, and the session enum l 3 / clause-update (4 -> 1
+   configurations) / enum / enum / undo-update / enum l 2 / enum l 3 is answered without a panic,
+   in both profiles alike: evaluated *)
+Example ex_c13_invariant_hyps :
+  stream_inv st13c /\ ext_total X13u /\ (forall C, ext_keeps X13u C) /\ ext_wf X13u /\
+  ext_wf X13 /\
+  session X13u true st13c shrink_session =
+  [SOk "1 2;-1 2;1 -2"; SOk ""; SOk "1 2"; SOk "1 2"; SOk ""; SOk "1 2;-1 2"; SOk "1 -2;-1 -2"]%string.
+Proof.
+  split; [exact st13c_inv|]. split; [exact X13u_total|]. split; [exact X13u_keeps|].
+  split; [exact X13u_wf|]. split; [apply ext_nnf_wf|]. exact (proj1 shrink_session_evaluated).
+Qed.
 
 (* the repaired parser does not depend on the build profile *)
 Theorem C13_profile_irrelevant : forall n conf args, tf_ok n ->
